@@ -348,6 +348,10 @@ def pred_c08(script, go, cls):
             r = o.get("res")
             failed_now = (delivered and good is False) or setup == "failed" or (good is None and peer_closed and delivered is False and
                                                                                  first_step is not None and i > first_step)
+            if r in ("ok", "sent", "nil") and not failed_now and not (delivered and good is True and setup == "done"):
+                note("early-caller-returns-before-setup-complete", "step %d: caller %d (typ %d) returned %s while setup was %s — a request is held back "
+                     "until version negotiation has completed; it cannot have been sent" % (
+                         i, st["caller"], reqs[st["caller"]][0], r, setup if delivered else "waiting for the first message"))
             if failed_now and r in ("ok", "sent", "nil"):
                 note("caller-succeeds-after-failed-setup", "step %d: caller %d returned %s though setup failed" % (i, st["caller"], r))
             if failed_now and op == "wait_caller" and r == "blocked":
